@@ -847,6 +847,66 @@ pub fn norecv(seed: u64) -> (Scenario, SchedCfg) {
     (s, c)
 }
 
+/// `norecv.solo` (C18): every receiver leaves while the ring is full, and a sender performs
+/// single try_send calls with every other thread frozen - possibly in the middle of the
+/// last receiver's unsubscribe (stream unlinked, no-reader flag not yet raised). The call
+/// must come back (Full or Disconnected) within a bounded number of its own steps.
+pub fn norecv_solo(seed: u64) -> (Scenario, SchedCfg) {
+    let mut g = Gen::new(seed);
+    let flavour = pick_flavour(&mut g.rng);
+    let cap = *g.rng.pick(&[0u64, 1, 2, 2, 3]);
+    let mut q = plain_queue(&mut g.rng, flavour, cap);
+    if let WaitK::Block(a, b) = q.wait {
+        q.wait = if g.rng.chance(1, 2) { WaitK::Busy } else { WaitK::Yield(a, b) };
+    }
+    let mut s = Scenario::new("norecv.solo", q);
+    let n = s.queue.capacity();
+    let ns = if flavour == Flavour::Bcast { g.rng.range(1, 2) } else { 1 };
+    let mut recvs: Vec<u32> = vec![1];
+    for _ in 1..ns {
+        let h = g.h();
+        s.setup.push(Op::AddStream { h: 1, new: h });
+        recvs.push(h);
+    }
+    if g.rng.chance(1, 2) {
+        let h = g.h();
+        s.setup.push(Op::CloneRecv { h: 1, new: h });
+        recvs.push(h);
+    }
+    let np = g.rng.range(1, 2);
+    let mut senders = vec![0u32];
+    for _ in 1..np {
+        let h = g.h();
+        s.setup.push(Op::CloneSender { h: 0, new: h });
+        senders.push(h);
+    }
+    for &h in &senders {
+        // fill the ring (bounded retries), then single calls with everybody else frozen
+        let mut prog = vec![Op::Produce { h, n: (n + 1) as u32, api: SendApi::TrySend, max_retry: 2 }];
+        for _ in 0..g.rng.range(4, 10) {
+            prog.push(Op::Yield(g.rng.range(0, 10) as u8));
+            prog.push(Op::SoloTry { h, kind: TryKind::Send });
+        }
+        prog.push(Op::DropSender { h });
+        s.threads.push(ThreadSpec { handles: vec![h], prog, spawned: false });
+    }
+    // every receiver leaves after taking at most one value, each from its own thread
+    for &h in &recvs {
+        let mut prog = vec![Op::Yield(g.rng.range(0, 20) as u8)];
+        if g.rng.chance(1, 3) {
+            prog.push(Op::Consume { h, api: RecvApi::TryRecv, quota: 1, max_empty: 1, after_end: 0 });
+        }
+        prog.push(if g.rng.chance(1, 2) { Op::Unsub { h } } else { Op::DropRecv { h } });
+        s.threads.push(ThreadSpec { handles: vec![h], prog, spawned: false });
+    }
+    s.probe = false;
+    s.final_drain = false;
+    common_faults(&mut g, &mut s);
+    s.tags = common_tags(&s);
+    let c = sched_for(&mut g.rng, &s, 50);
+    (s, c)
+}
+
 /// `teardown`: small concurrent scenarios whose last operations are handle drops, so the
 /// scheduler decides whose drop is last and what is in flight when the queue destructor
 /// runs: queue empty / full / partially consumed, streams at different positions, values
@@ -1180,7 +1240,19 @@ pub fn churn(seed: u64) -> (Scenario, SchedCfg) {
         heads.push(h);
     }
     let mut spawned: Vec<ThreadSpec> = Vec::new();
-    let n_main_threads = 1 + heads.len();
+    // twin leavers: one more stream with two handles, each owned by its own thread, both of
+    // which let go of it at some moment during the traffic (consumer count 2 -> 0: exactly
+    // one of the two drops must unlink the stream, or it limits the senders for ever)
+    let twins: Option<(u32, u32)> = if flavour == Flavour::Bcast && g.rng.chance(1, 3) {
+        let t1 = g.h();
+        let t2 = g.h();
+        s.setup.push(Op::AddStream { h: 1, new: t1 });
+        s.setup.push(Op::CloneRecv { h: t1, new: t2 });
+        Some((t1, t2))
+    } else {
+        None
+    };
+    let n_main_threads = 1 + heads.len() + if twins.is_some() { 2 } else { 0 };
     let mut next_spawn = n_main_threads;
     let sapi = |g: &mut Gen| if fut && g.rng.chance(1, 2) { SendApi::Sink } else { SendApi::TrySend };
     // the producer thread: sends, clones itself, hands the clone to a new thread, goes on
@@ -1273,6 +1345,16 @@ pub fn churn(seed: u64) -> (Scenario, SchedCfg) {
         };
         prog.push(Op::Consume { h, api: fin, quota: UNLIMITED, max_empty: UNLIMITED, after_end: 1 });
         s.threads.push(ThreadSpec { handles: vec![h], prog, spawned: false });
+    }
+    if let Some((t1, t2)) = twins {
+        for h in [t1, t2] {
+            let mut prog = vec![Op::Yield(g.rng.range(0, 12) as u8)];
+            if g.rng.chance(1, 2) {
+                prog.push(Op::Consume { h, api: RecvApi::TryRecv, quota: 1, max_empty: 2, after_end: 0 });
+            }
+            prog.push(if g.rng.chance(1, 2) { Op::DropRecv { h } } else { Op::Unsub { h } });
+            s.threads.push(ThreadSpec { handles: vec![h], prog, spawned: false });
+        }
     }
     s.threads.extend(spawned);
     if g.rng.chance(1, 4) {
